@@ -3,6 +3,7 @@
     the chain contains the six validation steps ([has_tags _ tags6], decidable, re-checked on the chain go2v extracts).
     Decoding (base64, DEFLATE, XML, unknown SAMLEncoding) is the oracle [decode]; its codec part is C18. *)
 From Saml Require Import Base.Bytes Idp.FactTypes Gen.Facts Idp.Sso Proofs.SsoProofs Proofs.SsoAccept.
+From Saml Require Import Xml.SchemaTypes Xml.Schema Gen.Schema Xml.SamlSpec.
 
 Section C06.
 Variable e_form : option form.
@@ -43,6 +44,11 @@ End C06.
 Example C06_mutant_rejected : has_tags (firstn 12 sso_steps ++ skipn 13 sso_steps) tags6 = false.
 Proof. vm_compute. reflexivity. Qed.
 
+(** the struct tags of the current source agree with the SAML schemas where the handlers rely on them: the fields the SSO chain checks (ID, Version, IssueInstant, Destination, Issuer, ProtocolBinding, Conditions) are the attributes and elements of that name in the request document, and what the reply builders fill are the attributes and elements of that name in the reply *)
+Theorem C06_schema : forallb (conforms xml_schema) saml_spec = true.
+Proof. exact saml_spec_conforms. Qed.
+
 Print Assumptions C06_accept_implies.
 Print Assumptions C06_window.
 Print Assumptions C06_current_tree.
+Print Assumptions C06_schema.
